@@ -28,3 +28,8 @@ Qed.
 Lemma bykey_only_selected_current : forall ks sv, wf sv = true -> forall dv root dry sk,
   only_selected ks root sv dv (fst (fst (bykey cfg_current ks sv dv root dry sk))) = true.
 Proof. intros ks. apply (bykey_only_selected cfg_current ks). reflexivity. Qed.
+
+Lemma stock_strategies : forall rel ms md,
+  verdict FS_always rel ms md = true /\ verdict FS_never rel ms md = false
+  /\ (verdict FS_update rel ms md = true <-> (ms > md)%Z).
+Proof. intros. simpl. repeat split; try (intro H; apply Z.gtb_lt in H; lia). intro H. apply Z.gtb_lt. lia. Qed.
